@@ -487,6 +487,31 @@ func init() {
 		}
 		return TupleV{e.internalVar("float", 64), e.internalVar("float", 64)}
 	}
+	// sync/atomic.Value: a plain cell holding an interface value
+	models["(*sync/atomic.Value).Store"] = func(e *Engine, st *State, args []Value, call *ssa.Call, pos token.Pos) Value {
+		p := args[0].(Pointer)
+		o := st.wobj(p.obj)
+		o.slots[int(p.off.c)] = args[1]
+		return TupleV{}
+	}
+	models["(*sync/atomic.Value).Load"] = func(e *Engine, st *State, args []Value, call *ssa.Call, pos token.Pos) Value {
+		p := args[0].(Pointer)
+		v := st.obj(p.obj).slots[int(p.off.c)]
+		if iv, ok := v.(Iface); ok {
+			return iv
+		}
+		return Iface{}
+	}
+	models["(*sync/atomic.Value).Swap"] = func(e *Engine, st *State, args []Value, call *ssa.Call, pos token.Pos) Value {
+		p := args[0].(Pointer)
+		o := st.wobj(p.obj)
+		old := o.slots[int(p.off.c)]
+		o.slots[int(p.off.c)] = args[1]
+		if iv, ok := old.(Iface); ok {
+			return iv
+		}
+		return Iface{}
+	}
 	models["os.Hostname"] = func(e *Engine, st *State, args []Value, call *ssa.Call, pos token.Pos) Value {
 		return TupleV{StringV{conc: "verifhost"}, Iface{}}
 	}
